@@ -253,6 +253,8 @@ def check_valid(project):
             elif a["a"] == "raise":
                 if a["kind"] not in RAISE_KINDS or (a.get("sub") and a["kind"] == "exc"):
                     raise Invalid("raise kind")
+                if a.get("base") and (a["kind"] != "exc" or in_thread or a["base"] not in BASE_EXCEPTIONS):
+                    raise Invalid("BaseException raise")
     for unit, sc in scripts_of(project):
         walk(sc, False, 0)
     if not (1 <= project["nb_threads"] <= 8):
@@ -311,6 +313,9 @@ def _benign_act(rng, cfg, depth, steps, wdepth=0):
     return {"a": "log", "level": "info"}
 
 
+BASE_EXCEPTIONS = ["SystemExit", "GeneratorExit", "CustomBase"]
+
+
 def _failing_act(rng, kinds):
     r = rng.random()
     if not kinds or r < 0.25:
@@ -321,6 +326,10 @@ def _failing_act(rng, kinds):
     act = {"a": "raise", "kind": kind}
     if kind != "exc" and rng.random() < 0.4:
         act["sub"] = True         # class EnvironmentDown(lcc.AbortAllTests): a project's own exception type
+    if kind == "exc" and rng.random() < 0.3:
+        # not an `Exception`: sys.exit() in user code, a generator closed under it, a project's own BaseException
+        # (same outcome as any unexpected exception; never inside an lcc.Thread, whose target Python lets die silently)
+        act["base"] = rng.choice(BASE_EXCEPTIONS)
     return act
 
 
@@ -345,7 +354,9 @@ def gen_script(rng, cfg, p_fail, p_gate, max_len=4, kinds=None):
         if nested and rng.random() < 0.45:
             # the failing act sits inside an lcc.Thread (any kind: `Thread.run` logs whatever ends the thread) or
             # inside an attachment block (the exception leaves the block, then the unit)
-            sc, _ = rng.choice(nested)
+            sc, in_thread = rng.choice(nested)
+            if in_thread:
+                f.pop("base", None)
             sc.insert(rng.randint(0, len(sc)), f)
         else:
             acts.insert(rng.randint(0, len(acts)), f)
